@@ -777,7 +777,12 @@ pub fn check_trace(s: &Script, tr: &Trace, rep: &mut Report) -> Outcome {
                     }
                 }
                 (Some(_), None) => fail!("C03", "ttl/none-for-visible", "get_ttl(k{k}) = None for a visible entry"),
-                (None, Some(ttl)) => fail!("C03", "ttl/reported-after-expiry-or-absent", "get_ttl(k{k}) = {ttl:?} although no visible entry exists"),
+                (None, Some(ttl)) => {
+                    fail!("C03", "ttl/reported-after-expiry-or-absent", "get_ttl(k{k}) = {ttl:?} although no visible entry exists");
+                    if let Some(owner) = slots.get(&index).filter(|e| e.key != k) {
+                        also!("C18", "collision/get_ttl-of-other-key", format!("get_ttl(k{k}) = {ttl:?}: k{k} is absent, the TTL reported is that of key {} (same index hash, other conflict hash)", owner.key));
+                    }
+                }
                 (None, None) => {}
             }
         }
